@@ -327,26 +327,30 @@ theorem setOffset_q (b : Buf) (o : Nat) (q : Quiet b) (hno : ¬ (b.mode = .file 
     reported end-of-file), no operation other than `SetStableAnchor` (which rebases the window once, by design) and a
     `SetOffset` that repositions an unanchored FILE moves or reallocates the window: every pointer handed out stays
     valid, and the state stays quiet. -/
+theorem quiet_step_q (b : Buf) (lp : Option Nat) (op : Op) (q : Quiet b)
+    (h1 : ∀ o, op ≠ .setStableAnchor o) (h2 : ∀ o, op = .setOffset o → ¬ (b.mode = .file ∧ b.anchor = none)) :
+    Q b (opRun b lp op).2 := by
+  cases op with
+  | getLine => exact getLine_q b q
+  | fetchLine => exact fetchLine_q b false q
+  | fetchLineStr => exact fetchLine_q b true q
+  | getToken sep => exact getToken_q b sep q
+  | fetchToken sep => exact fetchToken_q b sep false q
+  | fetchTokenStr sep => exact fetchToken_q b sep true q
+  | read k => exact read_q b k q
+  | get => show Q b (get b).2; unfold get; split <;> exact Q.refl b
+  | set k => exact set_q b lp k q
+  | getOffset => exact Q.refl b
+  | setOffset o => exact setOffset_q b o q (h2 o rfl)
+  | setAnchor o => exact setAnchor_q b o
+  | setStableAnchor o => exact absurd rfl (h1 o)
+  | raiseAnchor o => exact raiseAnchor_q b o
+
 theorem quiet_step (b : Buf) (lp : Option Nat) (op : Op) (q : Quiet b)
     (h1 : ∀ o, op ≠ .setStableAnchor o) (h2 : ∀ o, op = .setOffset o → ¬ (b.mode = .file ∧ b.anchor = none)) :
-    (opRun b lp op).2.memgen = b.memgen ∧ Quiet (opRun b lp op).2 := by
-  have key : Q b (opRun b lp op).2 := by
-    cases op with
-    | getLine => exact getLine_q b q
-    | fetchLine => exact fetchLine_q b false q
-    | fetchLineStr => exact fetchLine_q b true q
-    | getToken sep => exact getToken_q b sep q
-    | fetchToken sep => exact fetchToken_q b sep false q
-    | fetchTokenStr sep => exact fetchToken_q b sep true q
-    | read k => exact read_q b k q
-    | get => show Q b (get b).2; unfold get; split <;> exact Q.refl b
-    | set k => exact set_q b lp k q
-    | getOffset => exact Q.refl b
-    | setOffset o => exact setOffset_q b o q (h2 o rfl)
-    | setAnchor o => exact setAnchor_q b o
-    | setStableAnchor o => exact absurd rfl (h1 o)
-    | raiseAnchor o => exact raiseAnchor_q b o
-  exact ⟨key.gen, q.of_q key⟩
+    (opRun b lp op).2.memgen = b.memgen ∧ Quiet (opRun b lp op).2 :=
+  have key := quiet_step_q b lp op q h1 h2
+  ⟨key.gen, q.of_q key⟩
 
 /-- the openers whose result is quiet from the start: the three whole-input modes, and any paged mode when the input
     is shorter than a page (the first `fread` is short, so the stream is at end-of-file) -/
